@@ -98,12 +98,20 @@ def verify_item(item, timeout_ms=None):
         for oname, pc, goal, okind, line, tags in obs:
             # hide hypotheses the obligation does not need (sound: dropping hypotheses only
             # weakens the premise); if that is not enough the full path condition is used
+            # facts tagged `definition:*` (Skolem function of a proven exists-unique statement) may not be
+            # used by the obligations that justify the definition (no circularity)
+            if kind == "fn" and getattr(con, "uses_definitions", None) is not None and tags:
+                clause = re.sub(r"@\d+$", "", oname).split(":")[-1]
+                if clause not in con.uses_definitions:
+                    idx = [i for i in range(len(pc)) if not str(tags.get(i, "")).startswith("definition:")]
+                    tags = {new: tags[old] for new, old in enumerate(idx) if old in tags}
+                    pc = [pc[i] for i in idx]
             full_pc = pc
             keep = relevance(oname, con if kind == "fn" else None) if relevance else None
             if keep is not None and tags:
                 pc = [f for i, f in enumerate(full_pc) if (i not in tags) or keep(tags[i])]
                 if len(pc) < len(full_pc):
-                    r0 = solve.prove(pc, goal, use_cvc5=False, timeout_ms=min(timeout_ms or 10 ** 9, 6000))
+                    r0 = solve.prove(pc, goal, use_cvc5=False, timeout_ms=min(timeout_ms or 10 ** 9, 8000))
                     if r0.status == "proved":
                         rep["obligations"].append({
                             "name": oname, "key": strip_line(oname), "kind": okind, "line": line, "status": "proved",
